@@ -425,6 +425,9 @@ thread_local! {
 }
 
 static HOOK_INSTALLED: Mutex<bool> = Mutex::new(false);
+/// Last panic of any thread (panics on pool threads are re-raised by rayon on the caller
+/// without their location).
+static LAST_PANIC_ANY: Mutex<Option<(String, String)>> = Mutex::new(None);
 
 pub fn install_panic_hook() {
     let mut g = HOOK_INSTALLED.lock().unwrap();
@@ -471,6 +474,11 @@ pub fn install_panic_hook() {
         if std::env::var("VERIF_BACKTRACE").is_ok() {
             eprintln!("panic at {}: {}\n{}", loc, msg, std::backtrace::Backtrace::force_capture());
         }
+        if let Ok(mut g) = LAST_PANIC_ANY.lock() {
+            if g.is_none() {
+                *g = Some((loc.clone(), msg.clone()));
+            }
+        }
         LAST_PANIC.with(|p| *p.borrow_mut() = Some((loc, msg)));
     }));
 }
@@ -512,8 +520,10 @@ pub fn guarded<T>(f: impl FnOnce() -> T) -> Result<T, Panicked> {
     match std::panic::catch_unwind(std::panic::AssertUnwindSafe(f)) {
         Ok(v) => Ok(v),
         Err(_) => {
+            let any = LAST_PANIC_ANY.lock().ok().and_then(|mut g| g.take());
             let (site, msg) = LAST_PANIC
                 .with(|p| p.borrow_mut().take())
+                .or(any)
                 .unwrap_or(("?".into(), "?".into()));
             Err(Panicked { site, msg })
         }
